@@ -35,6 +35,8 @@ class T:
     results = {}     # token -> Stack returned
     frames_done = {}  # token -> number of frames whose elaborate_frame has returned
     ntoken = 0
+    in_outermost = 0  # depth of active extract_outermost() calls (a helper extraction whose Stack is discarded)
+    known = []
 
 
 def tick(site):
@@ -43,12 +45,13 @@ def tick(site):
         ex = Boom("%s#%d" % (site, n))
         tok = T.tokens[-1] if T.tokens else None
         top = T.tokens[0] if T.tokens else None
-        T.fired.append((site, n, ex, tok, T.frames_done.get(top, 0), T.frames_done.get(tok, 0)))
+        T.fired.append((site, n, ex, tok, T.frames_done.get(top, 0), T.frames_done.get(tok, 0), T.in_outermost > 0))
         raise ex
 
 
 # ---- interposition on names the extraction loop looks up in its own module ---------------------------
 
+_real_extract_outermost = _extract_mod.extract_outermost
 _real_extract_child = _extract_mod.extract_child
 _real_elaborate_frame = _extract_mod.elaborate_frame
 _real_contexts = _extract_mod.contexts_active_in_frame
@@ -67,6 +70,14 @@ def _tracked_extract_child(stackitem, *, for_task):
         T.tokens.pop()
 
 
+def _tracked_extract_outermost(stackitem, **kw):
+    T.in_outermost += 1
+    try:
+        return _real_extract_outermost(stackitem, **kw)
+    finally:
+        T.in_outermost -= 1
+
+
 class _ElabProxy:
     """Counts completed frames per extraction, then delegates to the real code_dispatch object."""
 
@@ -74,7 +85,7 @@ class _ElabProxy:
         try:
             return _real_elaborate_frame(frame, next_inner)
         finally:
-            if T.tokens:
+            if T.tokens and T.in_outermost == 0:   # frames of a helper extract_outermost() are not the token's
                 T.frames_done[T.tokens[-1]] += 1
 
     def __getattr__(self, name):
@@ -87,16 +98,18 @@ def _ticking_contexts(frame, origin=None, next_inner=None):
 
 
 def install():
-    for name in ("extract_child", "elaborate_frame", "contexts_active_in_frame"):
+    for name in ("extract_child", "elaborate_frame", "contexts_active_in_frame", "extract_outermost"):
         if not hasattr(_extract_mod, name):
             raise RuntimeError("harness: stackscope._extract.%s has disappeared" % name)
     _extract_mod.extract_child = _tracked_extract_child
+    _extract_mod.extract_outermost = _tracked_extract_outermost
     _extract_mod.elaborate_frame = _ElabProxy()
     _extract_mod.contexts_active_in_frame = _ticking_contexts
 
 
 def uninstall():
     _extract_mod.extract_child = _real_extract_child
+    _extract_mod.extract_outermost = _real_extract_outermost
     _extract_mod.elaborate_frame = _real_elaborate_frame
     _extract_mod.contexts_active_in_frame = _real_contexts
 
@@ -174,7 +187,15 @@ async def agcm1(k, sub):
         yield k
 
 
-for _g in (gcm0, gcm1, agcm0, agcm1):
+@asynccontextmanager
+async def agcm_x(k):
+    """suspends again while exiting (after its yield), so the frame can be observed with this manager exiting"""
+    with CM(k):
+        yield k
+        await trap("in-exit")
+
+
+for _g in (gcm0, gcm1, agcm0, agcm1, agcm_x):
     def _mk(g):
         def hook(frame, ctx):
             tick("unwrap_context_generator")
@@ -222,6 +243,8 @@ def make_mgr(spec, is_async):
         return agcm1(spec[1], make_mgr(spec[2], True)) if is_async else gcm1(spec[1], make_mgr(spec[2], False))
     if t == "stack":
         return AsyncExitStack() if is_async else ExitStack()
+    if t == "gcmx":
+        return agcm_x(spec[1])
     raise AssertionError(spec)
 
 
@@ -293,8 +316,16 @@ class Scenario:
         ir = self.ir
         kind = ir["kind"]
         if kind == "coro":
-            co = build_chain(ir["levels"])
+            levels = ir["levels"]
+            if ir.get("exit_phase"):
+                # innermost manager of the innermost level suspends in its own exit
+                levels = [dict(l) for l in levels]
+                levels[-1]["mgrs"] = list(levels[-1]["mgrs"]) + [[["gcmx", 97], True]]
+            co = build_chain(levels)
             co.send(None)
+            if ir.get("exit_phase"):
+                if co.send(None) != "in-exit":
+                    raise RuntimeError("harness: scenario did not suspend in the exiting manager")
             self.cleanup.append(co.close)
             target = co
         elif kind == "thread":
@@ -380,6 +411,7 @@ def run_plan(target, plan):
     T.tokens = []
     T.results = {}
     T.frames_done = {}
+    T.in_outermost = 0
     with warnings.catch_warnings(record=True) as w:
         warnings.simplefilter("always")
         try:
@@ -396,9 +428,14 @@ def judge(base, st, plan):
         return ["extract returned %r, not a Stack" % type(st).__name__]
     stacks = []
     walk_stacks(st, stacks)
-    for (site, k, ex, tok, done_top, done_tok) in T.fired:
+    for (site, k, ex, tok, done_top, done_tok, in_outermost) in T.fired:
         holders = [s for s in stacks if any(e is ex for e in errors_of(s))]
         if not holders:
+            if in_outermost:
+                # F12 signature: raised inside a helper extract_outermost() after it had produced its frame; the
+                # helper's error list is discarded together with it
+                T.known.append({"site": site, "k": k})
+                continue
             problems.append("exception injected at %s#%d is not retrievable from any .error" % (site, k))
             continue
         holder = holders[0]
@@ -431,7 +468,7 @@ def judge(base, st, plan):
         # the holder's own frames: prefix of the corresponding fault-free stack (matched by root identity)
         bstacks = []
         walk_stacks(base, bstacks)
-        for (site, k, ex, tok, _d, done_tok) in T.fired:
+        for (site, k, ex, tok, _d, done_tok, _io) in T.fired:
             want = T.results.get(tok)
             if want is None or want is st:
                 continue
@@ -462,6 +499,7 @@ def run_c05(req):
     install()
     obs = []
     stats = {"plans": 0, "fired": 0, "nontrivial_plans": 0, "pairs": 0, "sites": {}}
+    T.known = []
     try:
         target = sc.start()
         base, raised, w = run_plan(target, [])
@@ -507,7 +545,7 @@ def run_c05(req):
     harness = [o for o in obs if o["kind"].startswith("harness")]
     if harness:
         return {"harness_error": repr(harness[:2])}
-    return {"obs": obs, "stats": stats}
+    return {"obs": obs, "stats": stats, "known": T.known[:50], "known_count": len(T.known)}
 
 
 def run_objects(req):
